@@ -2,7 +2,7 @@
    in Proofs/C01.v; Print Assumptions beneath each.  [match_pat], [dispatch],
    [parse_pattern] are instantiated with the facts regenerated from the current
    source (anchor suffix, remainder group, default placeholder regex). *)
-From Coq Require Import List NArith Bool.
+From Coq Require Import List NArith Bool Permutation.
 Import ListNotations.
 Require Import Verif.Lib.Wire Verif.Lib.Text Verif.Lib.PathNorm Verif.Lib.Utf8 Verif.Gen.Facts_C01 Verif.Model.C01 Verif.Proofs.C01
   Verif.Proofs.C01_b Verif.Gen.Prog_C01 Verif.Proofs.C01_gen Verif.Proofs.C01_x.
@@ -431,3 +431,86 @@ Theorem C01_traverse_fix_keeps_captures : forall xs r d r' d' k,
   r' = r /\ (forall v, dict_get d k = Some v -> dict_get d' k = Some v).
 Proof. exact traverse_fix_keeps_captures. Qed.
 Print Assumptions C01_traverse_fix_keeps_captures.
+
+(* ---- eighth round: header= predicates (HeaderPredicate), also given a SEQUENCE of requirements *)
+Theorem C01_header_call_spec : forall O reqs hs,
+  header_call_model O reqs hs = true <->
+  Forall (fun q => exists value, hdr_get hs (fst (fst q)) = Some value /\
+            match snd (fst q) with None => True | Some atoms => re_match O atoms value = true end) reqs.
+Proof. exact header_call_spec. Qed.
+Print Assumptions C01_header_call_spec.
+
+Theorem C01_header_call_order_irrelevant : forall O reqs reqs' hs,
+  Permutation reqs reqs' -> header_call_model O reqs hs = header_call_model O reqs' hs.
+Proof. exact header_call_order_irrelevant. Qed.
+Print Assumptions C01_header_call_order_irrelevant.
+
+Theorem C01_param_call_order_irrelevant : forall reqs reqs' ps,
+  Permutation reqs reqs' -> param_call_model reqs ps = param_call_model reqs' ps.
+Proof. exact param_call_order_irrelevant. Qed.
+Print Assumptions C01_param_call_order_irrelevant.
+
+Theorem C01_header_call_all_required : forall O pre q post hs,
+  header_req_ok O hs q = false -> header_call_model O (pre ++ q :: post) hs = false.
+Proof. exact header_call_all_required. Qed.
+Print Assumptions C01_header_call_all_required.
+
+Theorem C01_hdr_get_key_only : forall hs n n', hdr_key n = hdr_key n' -> hdr_get hs n = hdr_get hs n'.
+Proof. exact hdr_get_key_only. Qed.
+Print Assumptions C01_hdr_get_key_only.
+
+(* only the mapper's matcher closure and TraversePredicate.__call__ touch the live match dictionary
+   (fail-closed scan of the whole package on this run) *)
+Theorem C01_matchdict_single_writer : (matchdict_single_writer =? 1)%N = true.
+Proof. exact matchdict_single_writer_true. Qed.
+Print Assumptions C01_matchdict_single_writer.
+
+Theorem C01_generated_header_call_is_model : forall O reqs hs, gen_header_call O reqs hs = header_call_model O reqs hs.
+Proof. exact gen_header_call_is_model. Qed.
+Print Assumptions C01_generated_header_call_is_model.
+
+Theorem C01_generated_xhr_call_is_model : forall val xhr, gen_xhr_call val xhr = xhr_call_model val xhr.
+Proof. exact gen_xhr_call_is_model. Qed.
+Print Assumptions C01_generated_xhr_call_is_model.
+
+Theorem C01_xheader_holds_iff : forall e method d neg vs reqs,
+  header_init_model vs = Some reqs ->
+  (xpred_holds e method d (XHeader neg vs) = true <->
+   (if neg then ~ Forall (fun q => exists value, hdr_get (e_headers e) (fst (fst q)) = Some value /\
+            match snd (fst q) with None => True | Some atoms => re_match (e_orc e) atoms value = true end) reqs
+    else Forall (fun q => exists value, hdr_get (e_headers e) (fst (fst q)) = Some value /\
+            match snd (fst q) with None => True | Some atoms => re_match (e_orc e) atoms value = true end) reqs)).
+Proof. exact xheader_holds_iff. Qed.
+Print Assumptions C01_xheader_holds_iff.
+
+(* end to end with request_param / header / xhr predicates: declarations resolved on the request
+   by the REGENERATED predicate calls, connected and dispatched by the regenerated program = the
+   declarative specification on the reference resolution *)
+Theorem C01_request_spec_y_generated : forall O e xs method raw m sts,
+  let ds := xbuild_h (mkPcalls gen_param_call gen_header_call gen_xhr_call gen_method_call) gen_nest_prefix gen_prefix_pattern xs e in
+  sup_with (spec_parse_m O) ds = true ->
+  connect_all_f (gen_connect (parse_pattern_m O)) empty_mapper 0 ds = (m, sts) ->
+  spec_request_m O (xbuild param_call_model nest_prefix_model prefix_pattern_model xs e) method raw
+  = spec_of_outcome (fst (gen_call (match_pat_m O) m method raw)).
+Proof. exact gen_request_spec_y. Qed.
+Print Assumptions C01_request_spec_y_generated.
+
+(* request_method= (RequestMethodPredicate): __call__ regenerated; GET implies HEAD, nothing else is added *)
+Theorem C01_generated_method_call_is_model : forall val method, gen_method_call val method = method_call_model val method.
+Proof. exact gen_method_call_is_model. Qed.
+Print Assumptions C01_generated_method_call_is_model.
+
+Theorem C01_method_get_implies_head : forall vals,
+  mem_text t_GET vals = true -> gen_method_call (method_init_model vals) t_HEAD = true.
+Proof. exact method_get_implies_head. Qed.
+Print Assumptions C01_method_get_implies_head.
+
+Theorem C01_method_init_only_adds_head : forall vals m,
+  m <> t_HEAD -> gen_method_call (method_init_model vals) m = mem_text m vals.
+Proof. exact method_init_only_adds_head. Qed.
+Print Assumptions C01_method_init_only_adds_head.
+
+Theorem C01_method_no_get_no_head : forall vals,
+  mem_text t_GET vals = false -> gen_method_call (method_init_model vals) t_HEAD = mem_text t_HEAD vals.
+Proof. exact method_no_get_no_head. Qed.
+Print Assumptions C01_method_no_get_no_head.
